@@ -755,6 +755,39 @@ pub fn check_c16(r: &Runner, ctx: &mut Ctx, l: &mut Local, rec: &CaseRec) -> Res
         account_std(r, l, rec, &om, h.contains(&b':'), "parse_headers vs the message's own start line");
         return Ok(());
     }
+    if rec.sub == "c16-decoy" {
+        // uninit entry points on a value that owns a non-empty array: same result as the
+        // initialised entry point at the capacity of the uninit slice, own array untouched
+        let decoy = rec.aux.first().copied().unwrap_or(3) as usize;
+        let (uentry, ientry) = if kind == Kind::Request {
+            (if rec.cfg == 0 && rec.aux.get(1).copied().unwrap_or(0) == 0 { Entry::ReqUninit } else { Entry::ReqCfgUninit }, Entry::ReqCfg)
+        } else {
+            (if rec.cfg == 0 && rec.aux.get(1).copied().unwrap_or(0) == 0 { Entry::RespUninit } else { Entry::RespCfgUninit }, Entry::RespCfg)
+        };
+        IN_PARSER.with(|c| c.set(true));
+        let res = std::panic::catch_unwind(std::panic::AssertUnwindSafe(|| {
+            let a = super::p_hist::uninit_with_decoy(kind, uentry, rec.cfg, &rec.buf, rec.cap, decoy);
+            let b = super::p_hist::run_sequence(kind, ientry, rec.cfg, &[&rec.buf[..]], rec.cap);
+            (a, b)
+        }));
+        IN_PARSER.with(|c| c.set(false));
+        let Ok(((uo, intact), io)) = res else {
+            return Err(viol("C16/panic", "a call panicked".into(), rec));
+        };
+        if uo != io[0] || !intact {
+            return Err(viol(
+                &format!("C16/uninit-entry-on-a-value-with-its-own-array/{}", kind.name()),
+                format!("{} with an uninit slice of {} slots, on a value that owns an array of {} headers, leaves {:?} (own array and headers slice left alone: {}); {} with capacity {} leaves {:?}",
+                    uentry.name(), rec.cap, decoy, uo, intact, ientry.name(), rec.cap, io[0]),
+                rec,
+            ));
+        }
+        if l.counting {
+            l.bump(status_hist_key(&uo.st));
+        }
+        r.account(l, rec, uo.version.is_some() || uo.method.is_some(), "uninit entry with a decoy array");
+        return Ok(());
+    }
     if rec.sub == "c16-sequence" {
         // the same sequence of buffers through each entry point, each on its own reused value
         let mut seq: Vec<&[u8]> = rec.bufs.iter().map(|b| &b[..]).collect();
@@ -1528,6 +1561,24 @@ pub fn run_c16(r: &Runner) {
             let rec = CaseRec::new("c16-split-message", entry, 0, cap, [sl, blk].concat());
             check_c16(r, ctx, l, &rec)
         });
+    }
+    // uninit entry points on a value that owns a non-empty array of its own
+    {
+        let gd = GenSpec { kinds: &RR_KINDS, profile: Profile { truncate: 24, mutate: 32, ..Profile::DEFAULT }, generous_cap: false, cfg_mask: 0x7f, cfg_entry_only: true };
+        r.par_random(
+            "G1 messages through the uninit entry points on a value that owns a sentinel array of 1..8 headers, uninit slice of 0..=k+2 slots: same result as the initialised entry point at that capacity, own array untouched",
+            r.amount(1_000_000, 15_000_000),
+            170,
+            |u: &mut Choice| {
+                let mut rec = g1_case(u, "c16-decoy", &gd);
+                rec.aux = vec![[1u64, 2, 3, 8][u.below(4)], u.below(2) as u64];
+                if u.chance(64) {
+                    rec.cap = 0;
+                }
+                rec
+            },
+            &|ctx, l, rec| check_c16(r, ctx, l, rec),
+        );
     }
     // the same sequence of calls on one reused value through each entry point
     {
